@@ -31,6 +31,7 @@ def run(ctx):
     ctx.each(optalg.evaluation_pipeline, ctx, repo, "R14i")
     ctx.each(r14j, ctx, repo)
     ctx.each(r14k, ctx, repo)
+    ctx.each(optalg.proposal_application, ctx, repo, "R14l")  # the bounds every feasibility test and projection uses are the adjustable's own lower / upper bound (0 is a bound, not 'no bound')
     from . import c15
     from .c08 import engines as _eng
 
